@@ -108,6 +108,7 @@ type j2tItem struct {
 	topts thrift.Options
 	desc  *thrift.TypeDescriptor
 	doc   []byte
+	into  bool
 	res   [4]c18Res
 }
 
@@ -128,7 +129,17 @@ func (it *j2tItem) run(fl int) {
 	var outb []byte
 	var err error
 	ok, _ := noPanic(func() {
-		if fl == 3 {
+		if it.into { // DoInto with a fresh small buffer: no pooled (already grown) buffer hides the growth path
+			buf := make([]byte, 0, 16)
+			if fl == 3 {
+				cv := j2tportable.NewBinaryConv(opts)
+				err = cv.DoInto(context.Background(), it.desc, doc, &buf)
+			} else {
+				cv := j2t.NewBinaryConv(opts)
+				err = cv.DoInto(context.Background(), it.desc, doc, &buf)
+			}
+			outb = buf
+		} else if fl == 3 {
 			cv := j2tportable.NewBinaryConv(opts)
 			outb, err = cv.Do(context.Background(), it.desc, doc)
 		} else {
@@ -218,6 +229,9 @@ func genC18Skip(r *rng, n int) []c18Item {
 		add(t, append(append([]byte(nil), b...), tail...))
 		if len(b) > 1 && (always || r.chance(50)) {
 			add(t, append([]byte(nil), b[:r.intn(len(b))]...)) // truncated
+		}
+		if len(b) > 1 && (always || r.chance(40)) {
+			add(t, append([]byte(nil), b[:len(b)-1]...)) // truncated by exactly one byte (off-by-one bounds checks)
 		}
 		if len(b) > 0 && (always || r.chance(30)) { // one byte substituted
 			c := append([]byte(nil), b...)
